@@ -19,7 +19,7 @@ def run(c):
 
         random.Random(c.seed).shuffle(keys)
         keys = keys[:400]
-    fams = [("sequential", seqs, None), ("failures", fails, None), ("watch keys (spellings of path / recursive / filter)", keys, None),
+    fams = [("sequential", seqs, None), ("failures", fails, None), ("start() fails part-way, then is retried", oe.fam_failing_start(), None), ("watch keys (spellings of path / recursive / filter)", keys, None),
             ("start_race", oe.fam_start_race(), 2 if c.thorough else 1)]
     oe.run_families(c, "C13", fams, bound=1, random_n=2000 if c.thorough else 200)
     c.cov["exhaustive"] = True
